@@ -5,7 +5,7 @@ from multiprocessing import Pool
 import z3
 
 import gen
-from core import Q, Tree, Con, F, zcon, zlin, zfrac, zconds, hex_of_float, run_driver, aff_from_json, DOC_CONV, Malfunction
+from core import Q, Tree, Con, F, aff_json, zcon, zlin, zfrac, zconds, hex_of_float, run_driver, aff_from_json, DOC_CONV, Malfunction
 from fw import (Check, calibrate, run_main, absorb_stats, interior_and_boundary_points, compare_eval, step_panics, point_hex)
 
 FUNCTIONS = ["src/pwl/iter.rs", "src/pwl/afftree.rs", "src/tree/graph.rs", "src/tree/iter.rs"]
@@ -42,10 +42,17 @@ def make_cases(chk):
         else:
             ts, layout = gen.tree_steps("t", sh, n, 1, rng, dec_gen=dg, order=rng.choice(["dfs", "bfs"]))
             nnodes = len(layout)
+        if i % 3 == 1:
+            # a subtree cut by the public remove_all_descendants (its root stays as a terminal), then new nodes that
+            # reuse the freed arena indices
+            ts = ts + [{"op": "cut_and_regrow", "tree": "t", "pick": rng.randrange(8),
+                        "regrow": ({"dec": aff_json(*dg(rng, 1, n), n), "t0": aff_json(gen.mat(rng, 1, n), gen.vec(rng, 1), n),
+                                    "t1": aff_json(gen.mat(rng, 1, n), gen.vec(rng, 1), n)} if rng.random() < 0.7 else None)}]
         steps = ts + [{"op": "export", "tree": "t"}, {"op": "polyhedra", "tree": "t", "skips": []},
                       {"op": "polyhedra", "tree": "t", "skips": [], "iter": True}]
         for p in range(nnodes):
             steps.append({"op": "polyhedra", "tree": "t", "skips": [p]})
+            steps.append({"op": "polyhedra", "tree": "t", "skips": [p, p], "iter": p % 2 == 1})      # skip_subtree twice in a row
         if not quick or i % 4 == 0:
             for p in range(nnodes):
                 for p2 in range(p + 1, nnodes):
@@ -97,6 +104,12 @@ def solve_case(args):
         return out
     nt = case["nt"]
     T = Tree(res[nt]["out"])
+    errs = T.structure_errors()
+    out["obl"] += 1
+    if errs:
+        # the arena the traversals walk over is itself broken (dangling links, orphans): report that, nothing else can be derived
+        out["findings"].append(("ill-formed-arena", "the tree built by the history is not well-formed: %s" % errs[:3]))
+        return out
     stream = res[nt + 1]["out"]["items"]
     # ---- stream structure, all skip variants
     met_at = [i for i, st_ in enumerate(case["steps"]) if st_["op"] == "metrics"][0]
